@@ -488,9 +488,9 @@ def abs (t : IntTy) (π : Policy) (to0 x : Int) (dir : Dir) : Int × Result :=
 
 /-- `add_mul_int` -/
 def addMul (t : IntTy) (π : Policy) (to0 x y : Int) (dir : Dir) : Int × Result :=
-  let (z, r) := mul t π 0 x y dir   -- `Type z;` uninitialised; only read when `r` says it was stored
-  let ov := r.resultOverflow
-  if ov == 0 then add t π to0 to0 (t.wrap z) dir
+  let zr := mul t π 0 x y dir   -- `Type z;` uninitialised; only read when the result says it was stored
+  let ov := zr.2.resultOverflow
+  if ov == 0 then add t π to0 to0 (t.wrap zr.1) dir
   else if ov == -1 then
     if to0 ≤ 0 then setNegOverflow t π to0 dir else assignNan t π to0 V_UNKNOWN_NEG_OVERFLOW
   else
@@ -498,9 +498,9 @@ def addMul (t : IntTy) (π : Policy) (to0 x y : Int) (dir : Dir) : Int × Result
 
 /-- `sub_mul_int` -/
 def subMul (t : IntTy) (π : Policy) (to0 x y : Int) (dir : Dir) : Int × Result :=
-  let (z, r) := mul t π 0 x y dir
-  let ov := r.resultOverflow
-  if ov == 0 then sub t π to0 to0 (t.wrap z) dir
+  let zr := mul t π 0 x y dir
+  let ov := zr.2.resultOverflow
+  if ov == 0 then sub t π to0 to0 (t.wrap zr.1) dir
   else if ov == -1 then
     if to0 ≥ 0 then setPosOverflow t π to0 dir else assignNan t π to0 V_UNKNOWN_NEG_OVERFLOW
   else
